@@ -67,7 +67,7 @@ def run(ctx):
 def _run(ctx, e2e):
     from click.testing import CliRunner
     import cij.cli.static
-    n = ctx.pick(54, 2160)
+    n = ctx.pick(54, 8640)
     for i in range(n):
         case_id = f"inv{i}"
         if not ctx.mine(i, case_id):
